@@ -124,3 +124,107 @@ Proof. induction n; simpl; auto. destruct (Z.eq_dec c c); congruence. Qed.
 
 Corollary median2_const c n : (0 < n)%nat -> median2 (repeat c n) = 2 * c.
 Proof. intros H. apply median2_majority. rewrite count_occ_repeat, repeat_length. lia. Qed.
+
+(* ---------- threshold form: a strict majority below / not below c decides the side of the median ---------- *)
+Definition count_lt (c : Z) (l : list Z) : nat := length (filter (fun x => x <? c) l).
+
+Lemma count_lt_perm c l l' : Permutation l l' -> count_lt c l = count_lt c l'.
+Proof.
+  unfold count_lt. induction 1; simpl; auto.
+  - destruct (x <? c); simpl; auto.
+  - destruct (y <? c), (x <? c); simpl; auto.
+  - congruence.
+Qed.
+
+Lemma count_lt_app c l1 l2 : count_lt c (l1 ++ l2) = (count_lt c l1 + count_lt c l2)%nat.
+Proof. unfold count_lt. rewrite filter_app, app_length. reflexivity. Qed.
+
+Lemma count_lt_le_length c l : (count_lt c l <= length l)%nat.
+Proof. unfold count_lt. induction l as [|x l IH]; simpl; [lia|]. destruct (x <? c); simpl; lia. Qed.
+
+Lemma count_lt_none c l : (forall x, In x l -> c <= x) -> count_lt c l = 0%nat.
+Proof.
+  unfold count_lt. induction l as [|x l IH]; intros H; [reflexivity|]. simpl.
+  destruct (Z.ltb_spec x c); [specialize (H x (or_introl eq_refl)); lia|]. apply IH. intros y Hy. apply H. right. assumption.
+Qed.
+
+Lemma count_lt_all c l : (forall x, In x l -> x < c) -> count_lt c l = length l.
+Proof.
+  unfold count_lt. induction l as [|x l IH]; intros H; [reflexivity|]. simpl.
+  destruct (Z.ltb_spec x c); [simpl; f_equal; apply IH; intros y Hy; apply H; right; assumption|].
+  specialize (H x (or_introl eq_refl)). lia.
+Qed.
+
+(* upper middle element *)
+Lemma sorted_upper_middle_lt s c : StronglySorted Z.le s -> (2 * count_lt c s > length s)%nat ->
+  nth (length s / 2) s 0 < c.
+Proof.
+  intros Hs Hmaj. set (m := (length s / 2)%nat).
+  assert (Hn : (0 < length s)%nat) by (pose proof (count_lt_le_length c s); lia).
+  assert (Hm : (m < length s)%nat) by (apply Nat.div_lt; lia).
+  destruct (Z_lt_le_dec (nth m s 0) c) as [|Hge]; [assumption|exfalso].
+  assert (Hc : count_lt c s = count_lt c (firstn m s)).
+  { rewrite <- (firstn_skipn m s) at 1. rewrite count_lt_app.
+    rewrite (count_lt_none c (skipn m s)); [lia|].
+    intros x Hx. apply In_skipn_nth in Hx. destruct Hx as [i [H1 H2]].
+    pose proof (strongly_nth_le s Hs m i ltac:(lia)). lia. }
+  pose proof (count_lt_le_length c (firstn m s)) as Hle. rewrite firstn_length in Hle.
+  assert (2 * m <= length s)%nat by (unfold m; pose proof (Nat.div_mod (length s) 2 ltac:(lia)); lia). lia.
+Qed.
+
+Theorem median2_lt l c : (2 * count_lt c l > length l)%nat -> median2 l < 2 * c.
+Proof.
+  intros Hmaj. unfold median2.
+  pose proof (sortZ_strongly l) as Hs. pose proof (sortZ_length l) as Hlen.
+  rewrite (count_lt_perm c l (sortZ l) (sortZ_perm l)) in Hmaj. rewrite <- Hlen in Hmaj.
+  set (s := sortZ l) in *. set (n := length s) in *.
+  pose proof (sorted_upper_middle_lt s c Hs Hmaj) as Hup. fold n in Hup.
+  assert (Hn : (0 < n)%nat) by (pose proof (count_lt_le_length c s); unfold n; lia).
+  destruct (Nat.even n) eqn:He; [|lia].
+  assert (Hlow : nth (n / 2 - 1) s 0 <= nth (n / 2) s 0).
+  { apply strongly_nth_le; [assumption|]. split; [lia|]. apply Nat.div_lt; lia. }
+  lia.
+Qed.
+
+(* lower middle element *)
+Lemma sorted_lower_middle_ge s c : StronglySorted Z.le s -> (2 * (length s - count_lt c s) > length s)%nat ->
+  c <= nth ((length s - 1) / 2) s 0.
+Proof.
+  intros Hs Hmaj. set (m := ((length s - 1) / 2)%nat).
+  assert (Hn : (0 < length s)%nat) by lia.
+  assert (Hm : (m < length s)%nat).
+  { unfold m. assert ((length s - 1) / 2 <= length s - 1)%nat by (apply Nat.div_le_upper_bound; lia). lia. }
+  destruct (Z_lt_le_dec (nth m s 0) c) as [Hlt|]; [exfalso|assumption].
+  (* positions 0..m hold values < c: at least m+1 of them *)
+  assert (Hc : (S m <= count_lt c s)%nat).
+  { rewrite <- (firstn_skipn (S m) s). rewrite count_lt_app.
+    rewrite (count_lt_all c (firstn (S m) s)).
+    - rewrite firstn_length. lia.
+    - intros x Hx. apply In_firstn_nth in Hx. destruct Hx as [i [H1 [H2 H3]]].
+      pose proof (strongly_nth_le s Hs i m ltac:(lia)). lia. }
+  assert (length s <= 2 * S m)%nat.
+  { unfold m. pose proof (Nat.div_mod (length s - 1) 2 ltac:(lia)). pose proof (Nat.mod_upper_bound (length s - 1) 2 ltac:(lia)). lia. }
+  lia.
+Qed.
+
+Theorem median2_ge l c : (2 * (length l - count_lt c l) > length l)%nat -> 2 * c <= median2 l.
+Proof.
+  intros Hmaj. unfold median2.
+  pose proof (sortZ_strongly l) as Hs. pose proof (sortZ_length l) as Hlen.
+  rewrite (count_lt_perm c l (sortZ l) (sortZ_perm l)) in Hmaj. rewrite <- Hlen in Hmaj.
+  set (s := sortZ l) in *. set (n := length s) in *.
+  pose proof (sorted_lower_middle_ge s c Hs Hmaj) as Hlo. fold n in Hlo.
+  assert (Hn : (0 < n)%nat) by lia.
+  destruct (Nat.even n) eqn:He.
+  - apply Nat.even_spec in He. destruct He as [k Hk].
+    assert (E1 : ((n - 1) / 2 = k - 1)%nat).
+    { rewrite Hk. symmetry. apply Nat.div_unique with (r := 1%nat); lia. }
+    assert (E2 : (n / 2 = k)%nat) by (rewrite Hk, Nat.mul_comm; apply Nat.div_mul; lia).
+    rewrite E1 in Hlo. rewrite E2.
+    assert (nth (k - 1) s 0 <= nth k s 0) by (apply strongly_nth_le; [assumption|fold n; lia]). lia.
+  - assert (Ho : Nat.odd n = true) by (rewrite <- Nat.negb_even, He; reflexivity).
+    apply Nat.odd_spec in Ho. destruct Ho as [k Hk].
+    assert (E1 : ((n - 1) / 2 = k)%nat) by (rewrite Hk; replace (2 * k + 1 - 1)%nat with (k * 2)%nat by lia; apply Nat.div_mul; lia).
+    assert (E2 : (n / 2 = k)%nat) by (rewrite Hk; symmetry; apply Nat.div_unique with (r := 1%nat); lia).
+    rewrite E1 in Hlo. rewrite E2. lia.
+Qed.
